@@ -6,6 +6,7 @@ from hypothesis import strategies as st
 from trie import BinaryTrie
 from trie.exceptions import NodeOverrideError
 
+from ..faults import HookDB
 from ..ref.bintrie import BLANK, RefBin, bits_of
 from ..util import Info, Raised, expect, expect_eq, impl
 
@@ -249,9 +250,12 @@ def run_case(case):
     info = Info()
     if case and case[0][0] == "deepcomb":
         return _run_deep(case, info)
-    db = {}
+    db = HookDB()
     t = impl("construct", BinaryTrie, db)
     model = {}
+    # a second trie with its own database, updated from inside a write of the first (an index)
+    t_side = impl("construct", BinaryTrie, {})
+    side_model = {}
     ledger = {BLANK: {}}
     order = [BLANK]
     refusals = compress = splits = 0
@@ -298,7 +302,16 @@ def run_case(case):
             fn = lambda: t.delete_subtrie(k)  # noqa: E731
             info.label("subtrie-" + _landing(before_shape.shape, bits_of(k)))
             info.label("subtrie-removes-many", len(victims) >= 2)
+        if no % 4 == 1 and not sparse:
+            sk = bytes([0x70 + no % 8, no % 251])
+            if not _conflicts(sk, side_model):
+                def side_write(kind_, key_, sk=sk):
+                    t_side.set(sk, b"side")
+                    side_model[sk] = b"side"
+                db.arm(side_write, no % 2, kinds=("write",))
+                info.label("second-trie-updated-inside-a-write")
         r = impl("only-NodeOverrideError", fn, allowed=(NodeOverrideError,))
+        db.hook = None
         if isinstance(r, Raised):
             expect("refusal-only-on-prefix-conflict", must_refuse or may_refuse,
                    lambda: f"{kind}({k!r}) was refused with NodeOverrideError on keys {sorted(model)}")
@@ -342,6 +355,10 @@ def run_case(case):
             # an emptied trie is writable again
             impl("set-on-reopened-empty", ot.set, b"\x33", b"x")
             expect_eq("get-matches-model", impl("lookup-never-raises", ot.get, b"\x33"), b"x", "get after set on a re-opened empty trie")
+    for sk, sv in side_model.items():
+        expect_eq("get-matches-model", impl("lookup-never-raises", t_side.get, sk), sv,
+                  f"get({sk!r}) on the second trie that was updated from inside writes of the first")
+    expect_eq("root-is-canonical", bytes(t_side.root_hash), RefBin(side_model).root_hash, "root of the second trie")
     if not model:
         expect_eq("empty-is-blank-hash", bytes(t.root_hash), BLANK, "root of the empty trie")
     info.nontrivial = refusals >= 1 and compress >= 1 and splits >= 1
